@@ -431,7 +431,9 @@ trait Driver {
     fn merge(&mut self, k: usize, p: usize);
     /// flush; per branch, everything the downstream sink received since the previous call
     fn flush(&mut self) -> Vec<Vec<TestEntry>>;
-    /// worker only: wait and look again (to tell "flush completed early" from "lost")
+    /// worker only: a second flush().await as a barrier (the channel is FIFO, so when it returns the
+    /// worker has finished handling the first flush request), then look again - tells "the first
+    /// flush().await returned before everything was emitted" from "lost"
     fn late(&mut self) -> Option<Vec<Vec<TestEntry>>> {
         None
     }
@@ -602,40 +604,50 @@ impl Driver for Mutexed {
     }
 }
 
-// --- TeeSink: by-ref branch, owned branch (constant-hash key), raw pass-through ---------------
+// --- TeeSink ---------------------------------------------------------------------------------------
+/// three-branch chain as in tests/split_sink.rs: the two aggregators are fed BY REFERENCE
+/// (`merge_ref`), the unaggregated pass-through receives the owned entry last
 type TeeInner<SA, SB, SR> = TeeSink<KeyedAggregator<Rec, SA>, TeeSink<KeyedAggregator<ByCollide, SB>, metrique_aggregation::sink::NonAggregatedSink<SR>>>;
+type BoxSink = metrique::writer::BoxEntrySink;
 struct Tee {
-    tee: TeeInner<metrique::writer::BoxEntrySink, metrique::writer::BoxEntrySink, metrique::writer::BoxEntrySink>,
-    a: Tap,
-    b: Tap,
-    raw: Tap,
+    /// two branches: by-ref aggregator + OWNED aggregator (constant-hash key)
+    tee2: TeeSink<KeyedAggregator<ByStr>, KeyedAggregator<ByCollide>>,
+    tee3: TeeInner<BoxSink, BoxSink, BoxSink>,
+    taps: [Tap; 5],
 }
 impl Tee {
     fn new() -> Self {
+        let (x, y) = (test_entry_sink(), test_entry_sink());
         let (a, b, r) = (test_entry_sink(), test_entry_sink(), test_entry_sink());
         Tee {
-            tee: TeeSink::new(KeyedAggregator::<Rec>::new(a.sink), TeeSink::new(KeyedAggregator::<ByCollide>::new(b.sink), non_aggregate(r.sink))),
-            a: Tap::new(a.inspector),
-            b: Tap::new(b.inspector),
-            raw: Tap::new(r.inspector),
+            tee2: TeeSink::new(KeyedAggregator::<ByStr>::new(x.sink), KeyedAggregator::<ByCollide>::new(y.sink)),
+            tee3: TeeSink::new(KeyedAggregator::<Rec>::new(a.sink), TeeSink::new(KeyedAggregator::<ByCollide>::new(b.sink), non_aggregate(r.sink))),
+            taps: [Tap::new(x.inspector), Tap::new(y.inspector), Tap::new(a.inspector), Tap::new(b.inspector), Tap::new(r.inspector)],
         }
     }
 }
-const B_TEE: [Branch; 3] = [
-    Branch { name: "tee-by-ref-branch", key: KeyKind::Name, has_inner: false, raw: false, const_hash: false, family: Family::Tee },
-    Branch { name: "tee-owned-branch", key: KeyKind::Name, has_inner: false, raw: false, const_hash: true, family: Family::Tee },
-    Branch { name: "tee-raw-branch", key: KeyKind::Name, has_inner: false, raw: true, const_hash: false, family: Family::Tee },
+const fn tb(name: &'static str, raw: bool, const_hash: bool, family: Family) -> Branch {
+    Branch { name, key: KeyKind::Name, has_inner: false, raw, const_hash, family }
+}
+const B_TEE: [Branch; 5] = [
+    tb("tee-by-ref-branch", false, false, Family::Tee),
+    tb("tee-owned-branch-const-hash", false, true, Family::Tee),
+    tb("tee3-first-branch", false, false, Family::Tee),
+    tb("tee3-nested-by-ref-branch-const-hash", false, true, Family::Tee),
+    tb("tee3-nested-owned-raw-branch", true, false, Family::Tee),
 ];
 impl Driver for Tee {
     fn branches(&self) -> &'static [Branch] {
         &B_TEE
     }
     fn merge(&mut self, k: usize, p: usize) {
-        self.tee.merge(rec(k, p).close());
+        self.tee2.merge(rec(k, p).close());
+        self.tee3.merge(rec(k, p).close());
     }
     fn flush(&mut self) -> Vec<Vec<TestEntry>> {
-        self.tee.flush();
-        vec![self.a.take(), self.b.take(), self.raw.take()]
+        self.tee2.flush();
+        self.tee3.flush();
+        self.taps.iter_mut().map(|t| t.take()).collect()
     }
 }
 
@@ -694,7 +706,7 @@ impl Driver for Worker<'_> {
         self.rig.drain_rec()
     }
     fn late(&mut self) -> Option<Vec<Vec<TestEntry>>> {
-        std::thread::sleep(Duration::from_millis(100));
+        futures::executor::block_on(self.rig.sink.flush());
         Some(self.rig.drain_rec())
     }
 }
@@ -752,7 +764,7 @@ impl Driver for GuardWorkerRec<'_> {
         self.rig.drain_rec()
     }
     fn late(&mut self) -> Option<Vec<Vec<TestEntry>>> {
-        std::thread::sleep(Duration::from_millis(100));
+        futures::executor::block_on(self.rig.sink.flush());
         Some(self.rig.drain_rec())
     }
 }
@@ -780,7 +792,7 @@ impl Driver for GuardWorkerDirect<'_> {
         vec![self.rig.d.drain().iter().map(to_test_entry).collect()]
     }
     fn late(&mut self) -> Option<Vec<Vec<TestEntry>>> {
-        std::thread::sleep(Duration::from_millis(100));
+        futures::executor::block_on(self.rig.dsink.flush());
         Some(vec![self.rig.d.drain().iter().map(to_test_entry).collect()])
     }
 }
@@ -874,7 +886,9 @@ fn check_flush(st: &mut St, b: &Branch, h: &Hist, flush_no: usize, seg: &[(u8, u
         by_key.entry(a.key.as_str()).or_default().push(a);
     }
     // one aggregate per distinct key
+    let mut key_set_ok = true;
     if let Some((k, v)) = by_key.iter().find(|(_, v)| v.len() > 1) {
+        key_set_ok = false;
         report(st, format!("{}:two-aggregates-for-one-key", b.name), format!("{} aggregates for key {k:?} in one flush", v.len()), &decoded, want_json.clone());
     }
     let sum_got: u64 = decoded.iter().map(|a| a.total).sum();
@@ -883,6 +897,7 @@ fn check_flush(st: &mut St, b: &Branch, h: &Hist, flush_no: usize, seg: &[(u8, u
     let missing: Vec<&String> = want.keys().filter(|k| !by_key.contains_key(k.as_str())).collect();
     let extra: Vec<&&str> = by_key.keys().filter(|k| !want.contains_key(**k)).collect();
     if !missing.is_empty() {
+        key_set_ok = false;
         if sum_got == sum_want && cnt_got == seg.len() && extra.is_empty() {
             report(st, b.merged_class(), format!("no aggregate for key(s) {missing:?}, but their inputs were folded into another key's aggregate"), &decoded, want_json.clone());
         } else {
@@ -890,12 +905,24 @@ fn check_flush(st: &mut St, b: &Branch, h: &Hist, flush_no: usize, seg: &[(u8, u
         }
     }
     if !extra.is_empty() {
+        key_set_ok = false;
         let stale = decoded.iter().any(|a| extra.iter().any(|k| **k == a.key) && earlier.contains(a));
         let class = if stale { format!("{}:aggregate-emitted-again-after-flush", b.name) } else { format!("{}:aggregate-for-key-not-merged", b.name) };
         report(st, class, format!("aggregate(s) for key(s) {extra:?} that received no input since the previous flush"), &decoded, want_json.clone());
     }
-    for (k, w) in &want {
+    // field-level comparison only when the key set is right (otherwise the failure is already
+    // classified and the fields of the receiving aggregates are wrong as a consequence)
+    for (k, w) in want.iter().filter(|_| key_set_ok) {
         let Some(g) = by_key.get(k.as_str()).and_then(|v| v.first()) else { continue };
+        // every per-input field short / over at once: whole inputs are missing / counted again
+        if g.total < w.total && g.obs.len() < w.obs.len() {
+            report(st, b.lost_class(), format!("key {k:?}: the aggregate holds {} of {} inputs (sum {} of {})", g.obs.len(), w.obs.len(), g.total, w.total), &decoded, want_json.clone());
+            continue;
+        }
+        if g.total > w.total && g.obs.len() > w.obs.len() {
+            report(st, format!("{}:aggregate-holds-inputs-from-before-the-previous-flush-or-twice", b.name), format!("key {k:?}: the aggregate holds {} observations / sum {} for {} inputs / sum {}", g.obs.len(), g.total, w.obs.len(), w.total), &decoded, want_json.clone());
+            continue;
+        }
         if g.total != w.total {
             report(st, format!("sum-wrong:{}", b.name), format!("key {k:?}: Sum field is {} but the inputs add up to {}", g.total, w.total), &decoded, want_json.clone());
         }
@@ -935,39 +962,53 @@ fn run(st: &mut St, d: &mut dyn Driver, h: &Hist) {
     let mut seg_start = 0;
     let mut flush_no = 0;
     let mut emitted: Vec<Vec<Agg>> = vec![Vec::new(); branches.len()];
+    let flush_violation = std::cell::Cell::new(false);
     let mut do_flush = |st: &mut St, d: &mut dyn Driver, seg: &[(u8, u8)], flush_no: usize| {
         let got = d.flush();
         st.transitions += 1;
         assert_eq!(got.len(), branches.len());
+        // violations of this flush are held back until the late probe (worker kinds) has decided
+        // between "flush().await returned too early" and a genuinely wrong emission
+        let held = std::mem::take(&mut st.v);
         let mut lost = false;
+        let mut decs = Vec::new();
         for (bi, b) in branches.iter().enumerate() {
             let (dec, class) = check_flush(st, b, h, flush_no, seg, &got[bi], &emitted[bi]);
             if class.is_some() {
                 lost = true;
+                flush_violation.set(true);
             }
-            emitted[bi].extend(dec);
+            decs.push(dec);
         }
+        let mut this_flush = std::mem::replace(&mut st.v, held);
         if lost {
             // worker kinds: did the missing aggregates arrive AFTER flush().await returned?
             if let Some(late) = d.late() {
+                st.transitions += 1;
                 for (bi, b) in branches.iter().enumerate() {
                     if !late[bi].is_empty() {
                         let mut j = h.json(b);
                         j["at_flush_number"] = json!(flush_no);
-                        j["arrived_after_the_await"] = json!(late[bi].len());
-                        st.v.add(
+                        j["downstream_right_after_the_await"] = json!(decs[bi].iter().map(|a| a.json()).collect::<Vec<_>>());
+                        j["arrived_only_after_a_second_flush_barrier"] = json!(late[bi].iter().filter_map(|e| decode(b, e).ok()).map(|a| a.json()).collect::<Vec<_>>());
+                        this_flush = Violations::default();
+                        this_flush.add(
                             "worker:flush-completed-early",
-                            format!("{}: flush().await returned before {} entries sent before it reached the downstream sink", b.name, late[bi].len()),
+                            format!("{}: flush().await returned before {} entries merged before it had reached the downstream sink", b.name, late[bi].len()),
                             j,
                         );
                         for e in &late[bi] {
                             if let Ok(a) = decode(b, e) {
-                                emitted[bi].push(a);
+                                decs[bi].push(a);
                             }
                         }
                     }
                 }
             }
+        }
+        st.v.merge(this_flush);
+        for (bi, dec) in decs.into_iter().enumerate() {
+            emitted[bi].extend(dec);
         }
     };
     if n == 0 {
@@ -988,7 +1029,8 @@ fn run(st: &mut St, d: &mut dyn Driver, h: &Hist) {
     for (bi, b) in branches.iter().enumerate() {
         let sum_out: u64 = emitted[bi].iter().map(|a| a.total).sum();
         let cnt_out: usize = emitted[bi].iter().map(|a| a.obs.len()).sum();
-        if sum_out != sum_in || cnt_out != n {
+        // (a history with a per-flush violation is already reported under a more specific class)
+        if (sum_out != sum_in || cnt_out != n) && !flush_violation.get() {
             let mut j = h.json(b);
             j["emitted_over_all_flushes"] = json!(emitted[bi].iter().map(|a| a.json()).collect::<Vec<_>>());
             let class = if sum_out < sum_in || cnt_out < n { "inputs-lost-overall" } else { "inputs-counted-more-than-once" };
